@@ -117,6 +117,28 @@ func assertPC(t *Term) {
 // solver2, when set (thorough tier), mirrors the path condition into a second, different solver;
 // every obligation decided by the primary is asked there too and the two verdicts must agree.
 var solver2 *Solver
+
+// The cross-check solver gets a short per-query limit (an "unknown" there is counted, it fails
+// nothing) and a fresh process every 1500 queries: z3 4.8.12 keeps growing under long push/pop
+// sessions (1.7 GB per worker were observed).
+var newSolver2 func() *Solver
+var solver2Base int
+
+func crossCheckTimeoutMs(primary int) int {
+	if primary > 20000 {
+		return 20000
+	}
+	return primary
+}
+
+func recycleSolver2() {
+	if solver2 == nil || newSolver2 == nil || solver2.queries-solver2Base < 1500 {
+		return
+	}
+	solver2.Close()
+	solver2 = newSolver2()
+	solver2Base = 0
+}
 var crossChecks, crossUnknown int
 
 func recordDecision(d decision) {
@@ -393,6 +415,7 @@ type pathOutcome struct {
 }
 
 func runPath(i *interpreter, fn value, prefix []decision) (out pathOutcome) {
+	recycleSolver2()
 	solver.Push()
 	if solver2 != nil {
 		solver2.Push()
